@@ -197,7 +197,9 @@ def run_history(seed, nops, depth=2):
     ev = []
 
     def render():
-        wd.invalidate_all(root)
+        # empty the canvas cache only: the widgets' own layout caches (GridFlow's display widget, Columns' widths, ...)
+        # stay as the history left them, so staleness there is observable
+        u.CanvasCache.clear()
         del wd.rfocus[:]
         root.render((W, H), True)
         return list(wd.rfocus)
@@ -313,8 +315,13 @@ def run_history(seed, nops, depth=2):
                     q = rng.random()
                     if q < 0.35:
                         c.contents.insert(rng.randint(0, len(kids)), (wd.leaf(), opt))
-                    elif q < 0.6 and kids:
+                    elif q < 0.5 and kids:
                         del c.contents[rng.randrange(len(kids))]
+                    elif q < 0.6:   # slice deletion incl. extended and negative steps (valid for any list)
+                        a = rng.choice([None, 0, 1, 2, -1, -2])
+                        b = rng.choice([None, None, 0, 1, 3, -1])
+                        k = rng.choice([None, 1, 2, 2, 3, -1, -2])
+                        del c.contents[a:b:k]
                     elif q < 0.9:
                         c.contents[:] = [(wd.leaf(), opt) for _ in range(rng.randint(0, 3))]
                         t = "setcontents"
@@ -328,7 +335,13 @@ def run_history(seed, nops, depth=2):
                         del c.body[rng.randrange(len(kids))]
                 elif isinstance(c, u.Frame):
                     part = rng.choice(["header", "footer"])
-                    setattr(c, part, wd.leaf() if rng.random() < 0.6 else None)
+                    q = rng.random()
+                    if q < 0.5:
+                        setattr(c, part, wd.leaf() if rng.random() < 0.6 else None)
+                    elif q < 0.75 and getattr(c, part) is not None:
+                        del c.contents[part]
+                    else:
+                        c.contents[part] = (wd.leaf(), None)
                 else:
                     continue
             except Exception as ex:  # noqa: BLE001
